@@ -5,7 +5,7 @@ Open Scope string_scope.
 Definition event_names : list string := ["ProfileParsingStart"; "ProfileParsingDone"; "InputDataParsingStart"; "InputDataParsingDone"; "InputDataNormalizationStart"; "InputDataNormalizationDone"; "RegoGenerationStart"; "RegoGenerationDone"; "RegoCompilationStart"; "RegoCompilationDone"; "OpaValidationStart"; "OpaValidationDone"; "BuildReportStart"; "BuildReportDone"].
 Definition sk_generate_rego : string := "defer recoverAsError; send ProfileParsingStart; call Parse; send ProfileParsingDone; if err != nil { return }; send RegoGenerationStart; call Generate; send RegoGenerationDone; return".
 Definition sk_compile_rego : string := "send RegoCompilationStart; call PrepareForEval; send RegoCompilationDone; return".
-Definition sk_process_profile : string := "call recallProfile; if compiled != nil { return }; call GenerateRego; if err != nil { return }; call CompileRego; if compiled != nil { call rememberProfile }; return".
+Definition sk_process_profile : string := "call GenerateRego; if err != nil { return }; return call CompileRego".
 Definition sk_process_input : string := "defer recoverAsError; send InputDataParsingStart; call NewDecoder; call ?; call UseNumber; call Decode; if err != nil { return }; send InputDataParsingDone; send InputDataNormalizationStart; call Index; call Normalize; send InputDataNormalizationDone; return".
 Definition sk_execute_validation : string := "send OpaValidationStart; call Eval; send OpaValidationDone; return".
 Definition sk_process_result : string := "defer recoverAsError; send BuildReportStart; call BuildReport; send BuildReportDone; return".
